@@ -430,6 +430,20 @@ def _raw_uses(expr: ast.AST, params):
     return probs, offsets
 
 
+def _row_threshold(test: ast.AST, params) -> bool:
+    """`x1.size(-2) > 25 or x2.size(-2) > 25` (any order, `shape[-2]` form as well, bound at most 25): true iff cdist may expand the square"""
+    parts = test.values if isinstance(test, ast.BoolOp) and isinstance(test.op, ast.Or) else [test]
+    seen = set()
+    for p in parts:
+        if not (isinstance(p, ast.Compare) and len(p.ops) == 1 and isinstance(p.ops[0], ast.Gt) and isinstance(p.comparators[0], ast.Constant) and isinstance(p.comparators[0].value, int) and p.comparators[0].value <= 25):
+            return False
+        t = src(p.left)
+        for q in params:
+            if t in ("%s.size(-2)" % q, "%s.shape[-2]" % q):
+                seen.add(q)
+    return seen == set(params)
+
+
 def centred_distances(idx: ProgramIndex, rep: Report):
     from ..symbolic import inline, walk_paths
     rep.rule("C07-8", "the distance helpers subtract one common, data-derived offset from both inputs before torch.cdist / the quadratic "
@@ -442,16 +456,23 @@ def centred_distances(idx: ProgramIndex, rep: Report):
         if f is None:
             raise AnalysisError("C07-8: gpytorch.kernels.kernel.%s not found" % name)
         params = set(f.params[:2])
-        probs, seen, computes = [], set(), 0
+        probs, seen, computes, exact_small = [], set(), 0, 0
         for path, seq in walk_paths(f):
+            # torch.cdist takes exact differences unless one input has more than 25 rows (documented compute_mode default): a path
+            # that assumed `x1.size(-2) > 25 or x2.size(-2) > 25` false may hand the inputs over as they are
+            few_rows = any(getattr(st, "kind", None) == "assume" and not st.truth and _row_threshold(st.node, params) for st, env in seq)
             for st, env in seq:
                 if not (isinstance(st, ast.Return) and st.value is not None):
                     continue
                 r = inline(st.value, env)
-                k = ast.dump(r)
+                k = ast.dump(r) + ("|few" if few_rows else "")
                 if k in seen:
                     continue
                 seen.add(k)
+                if few_rows and any(isinstance(c, ast.Call) and (chain(c.func) or "").split(".")[-1] == "cdist" for c in ast.walk(r)) \
+                        and not any(isinstance(c, ast.Call) and (chain(c.func) or "").split(".")[-1] in ("matmul", "mm", "bmm", "einsum") or isinstance(c, ast.BinOp) and isinstance(c.op, ast.MatMult) for c in ast.walk(r)):
+                    exact_small += 1
+                    continue
                 pr, offs = _raw_uses(r, params)
                 probs += pr
                 expands = any(isinstance(c, ast.Call) and (chain(c.func) or "").split(".")[-1] in ("cdist", "matmul", "mm", "bmm", "einsum") or isinstance(c, ast.BinOp) and isinstance(c.op, ast.MatMult) for c in ast.walk(r))
